@@ -160,3 +160,86 @@ func concreteBytes(v []value) ([]byte, bool) {
 	}
 	return b, true
 }
+
+// ---- xfer/md5.getMd5 as an uninterpreted, collision-free function (stub S-HASH)
+
+type md5Rec struct {
+	in  []value
+	out []value
+}
+
+func init() {
+	externals["github.com/henrylee2cn/erpc/v6/xfer/md5.getMd5"] = func(fr *frame, a []value) value {
+		i := fr.i
+		src := append([]value{}, a[0].([]value)...)
+		if b, ok := concreteBytes(src); ok {
+			h := md5.Sum(b)
+			out := make([]value, 16)
+			for k := range out {
+				out[k] = h[k]
+			}
+			i.md5Constrain(src, out)
+			return tuple{out, iface{}}
+		}
+		// same input (syntactically) => same output
+		for _, r := range i.world.md5Recs {
+			if len(r.in) == len(src) {
+				same := true
+				for k := range src {
+					if !sameScalar(r.in[k], src[k]) {
+						same = false
+						break
+					}
+				}
+				if same {
+					return tuple{append([]value{}, r.out...), iface{}}
+				}
+			}
+		}
+		out := make([]value, 16)
+		for k := range out {
+			name := i.freshName(fmt.Sprintf("md5_%d_%d", len(i.world.md5Recs), k))
+			i.solver.declare(name, 8)
+			out[k] = sym{i.tc.Var(name, 8), types.Uint8}
+		}
+		i.md5Constrain(src, out)
+		return tuple{append([]value{}, out...), iface{}}
+	}
+}
+
+func sameScalar(a, b value) bool {
+	sa, oka := a.(sym)
+	sb, okb := b.(sym)
+	if oka && okb {
+		return sa.t == sb.t
+	}
+	if oka || okb {
+		return false
+	}
+	return a == b
+}
+
+// md5Constrain records (in,out) and asserts collision-freedom against every
+// earlier record: equal digests imply equal inputs.
+func (i *interpreter) md5Constrain(in, out []value) {
+	eqBytes := func(x, y []value) *Term {
+		if len(x) != len(y) {
+			return i.tc.ff
+		}
+		acc := i.tc.tt
+		for k := range x {
+			tx, _ := i.termOf(x[k])
+			ty, _ := i.termOf(y[k])
+			acc = i.tc.And(acc, i.tc.Cmp("=", tx, ty))
+		}
+		return acc
+	}
+	for _, r := range i.world.md5Recs {
+		eqOut := eqBytes(r.out, out)
+		eqIn := eqBytes(r.in, in)
+		i.addPC(i.tc.Or(i.tc.Not(eqOut), eqIn))
+		// and the function is a function
+		i.addPC(i.tc.Or(i.tc.Not(eqIn), eqOut))
+	}
+	i.world.md5Recs = append(i.world.md5Recs, md5Rec{in: in, out: out})
+}
